@@ -27,8 +27,8 @@ import traceback
 
 HERE = os.path.dirname(os.path.dirname(os.path.abspath(__file__)))
 REPO = os.environ.get('YAQL_REPO', '/repo')
-EVIDENCE_DIR = os.path.join(HERE, 'evidence')
-REPLAY_DIR = os.path.join(HERE, 'replays')
+EVIDENCE_DIR = os.environ.get('VERIF_EVIDENCE_DIR') or os.path.join(HERE, 'evidence')
+REPLAY_DIR = os.environ.get('VERIF_REPLAY_DIR') or os.path.join(HERE, 'replays')
 KNOWN_FILE = os.path.join(HERE, 'known_findings.json')
 MAX_WORKERS = int(os.environ.get('VERIF_WORKERS', '16'))
 MEM_LIMIT = int(os.environ.get('VERIF_SHARD_MEM', str(3 << 30)))
